@@ -167,42 +167,138 @@ Proof.
   destruct (String.eqb x y) eqn:E; [apply String.eqb_eq in E; inversion L; subst; left; reflexivity|right; auto].
 Qed.
 
+(** ** the context of a program *)
+Section Prog.
+Variable p : prog.
+Hypothesis Hp : pap_args_pure p.
+
+Definition ok := ctor_declared (p_unions p).
+Definition gfuncs := g_funcs (compile_prog p).
+Definition gvars := g_vars (compile_prog p).
+
+Lemma prog_funs : forall f ps b, lookup f (p_funs p) = Some (ps, b) ->
+  exists k, lookup f gfuncs = Some (ps, compile_block k b) /\
+            Forall (fun x => reserved x = false) ps /\ wfb true ok b.
+Proof.
+  destruct Hp as (Nd & Wf & Wm). intros f ps b L.
+  pose proof (lookup_in _ _ _ L) as I. rewrite Forall_forall in Wf.
+  destruct (Wf _ I) as (Rf & Rps & Wb). cbn in Rf, Rps, Wb.
+  destruct (compile_funs_lookup _ 0 _ _ _ L) as (k & Lk). exists k. repeat split; auto.
+  unfold gfuncs, compile_prog; cbn [g_funcs]. rewrite lookup_app.
+  rewrite lookup_notin; [exact Lk|].
+  intros I2. apply ctor_funcs_ctor_like in I2. destruct (reserved_false _ Rf). congruence.
+Qed.
+
+Lemma prog_ctor1 : forall u c, ok u c true -> lookup (ctor_name u c) gfuncs = Some (ctor_func_body u c).
+Proof.
+  destruct Hp as (Nd & Wf & Wm). intros u c (cases & Iu & Ic).
+  unfold gfuncs, compile_prog; cbn [g_funcs]. rewrite lookup_app.
+  rewrite (all_unions_func _ _ _ _ Nd Iu Ic). reflexivity.
+Qed.
+
+Lemma prog_ctor0 : forall u c, ok u c false ->
+  lookup (ctor_name u c) gfuncs = None /\
+  lookup (ctor_name u c) gvars = Some (GStructLit (case_struct u c) []).
+Proof.
+  destruct Hp as (Nd & Wf & Wm). intros u c (cases & Iu & Ic).
+  destruct (all_unions_var _ _ _ _ Nd Iu Ic) as (L & NI). split; [|exact L].
+  unfold gfuncs, compile_prog; cbn [g_funcs]. rewrite lookup_app.
+  rewrite (lookup_notin _ _ NI). apply lookup_notin. rewrite compile_funs_names.
+  intros I. apply in_map_iff in I. destruct I as ([g d] & Eg & I). cbn in Eg; subst g.
+  rewrite Forall_forall in Wf. destruct (Wf _ I) as (Rf & _). cbn in Rf.
+  destruct (reserved_false _ Rf) as (_ & C). rewrite ctor_name_like in C. discriminate.
+Qed.
+
+Definition prog_sims (n:nat) := sim_all ok (p_funs p) gfuncs gvars prog_funs prog_ctor1 prog_ctor0 n.
+
+(** the compiled program produces the source's output, at every sufficiently large fuel *)
+Lemma compile_correct_eventually n out :
+  run_src n p = ODone out -> exists m0, forall m, m0 <= m -> run_go m (compile_prog p) = ODone out.
+Proof.
+  intros R. unfold run_src in R.
+  destruct (eval_block (p_funs p) n [] (p_main p) []) as [v t| |] eqn:Ev; try discriminate.
+  inversion R; subst.
+  destruct Hp as (Nd & Wf & Wm).
+  destruct (sim_block ok (p_funs p) gfuncs gvars prog_funs prog_ctor1 prog_ctor0 n [] [] (p_main p) [] v t
+              (nvfuns (p_funs p)) Wm (erel_nil ok gfuncs) Ev) as (o & (m & Hm) & _).
+  exists (S m). intros m1 Hle. destruct m1 as [|m1]; [lia|].
+  unfold run_go. cbn [MiniGo.gapply bind].
+  change (g_funcs (compile_prog p)) with gfuncs. change (g_vars (compile_prog p)) with gvars.
+  change (g_main (compile_prog p)) with (compile_block (nvfuns (p_funs p)) (p_main p)).
+  rewrite (Hm m1) by lia. reflexivity.
+Qed.
+
+Notation wfe' := (wfe true ok).
+Notation wfb' := (wfb true ok).
+Notation vrel' := (vrel ok gfuncs).
+Notation erel' := (erel ok gfuncs).
+Notation Geval' := (Geval gfuncs gvars).
+Notation Gevals' := (Gevals gfuncs gvars).
+
+(** *** the behaviours the property names, as instances of the simulation *)
+
+(** only the taken branch of an [if] runs: whatever the other branch is (it may print, loop or be stuck),
+    the emitted [frt.IfElse(c, func…, func…)] produces the condition's effects followed by the taken branch's *)
+Lemma untaken_branch_silent n senv genv c bt bf t (cv:bool) t1 v t2 k :
+  wfe' (EIf c bt bf) -> erel' senv genv ->
+  eval (p_funs p) n senv c t = Done (VBool cv) t1 ->
+  eval_block (p_funs p) n senv (if cv then bt else bf) t1 = Done v t2 ->
+  exists gv, Geval' genv (compile k (EIf c bt bf)) t gv t2 /\ vrel' v gv.
+Proof.
+  intros W E Hc Hb. destruct (prog_sims (S n)) as (IE & _).
+  apply (IE senv genv (EIf c bt bf) t v t2 k W E).
+  cbn [eval]. rewrite Hc. cbn [rbind]. destruct cv; exact Hb.
+Qed.
+
+(** [&&] and [||] evaluate their right operand only when needed *)
+Lemma short_circuit n senv genv a b t t1 k (is_and:bool) :
+  wfe' (EBin (if is_and then OAnd else OOr) a b) -> erel' senv genv ->
+  eval (p_funs p) n senv a t = Done (VBool (negb is_and)) t1 ->
+  Geval' genv (compile k (EBin (if is_and then OAnd else OOr) a b)) t (GVBool (negb is_and)) t1.
+Proof.
+  intros W E Ha. destruct (prog_sims (S n)) as (IE & _).
+  destruct (IE senv genv (EBin (if is_and then OAnd else OOr) a b) t (VBool (negb is_and)) t1 k W E) as (gv & G & V).
+  { destruct is_and; cbn [eval negb]; rewrite Ha; reflexivity. }
+  apply vrel_bool_inv in V. subst gv. exact G.
+Qed.
+
+(** a union match runs the arm of the constructor the value was built with (and only that arm) *)
+Lemma match_dispatches_to_constructor n senv genv e u arms def t c payload t1 bx b v t2 k :
+  wfe' (EMatchU e u arms def) -> erel' senv genv ->
+  eval (p_funs p) n senv e t = Done (VUnion u c payload) t1 ->
+  find_arm c arms = Some (bx, b) ->
+  eval_block (p_funs p) n
+    (match bx, payload with Some x, Some pv => (x, pv) :: senv | _, _ => senv end) b t1 = Done v t2 ->
+  (bx <> None -> payload <> None) ->
+  exists gv, Geval' genv (compile k (EMatchU e u arms def)) t gv t2 /\ vrel' v gv.
+Proof.
+  intros W E He Fa Hb Hpay. destruct (prog_sims (S n)) as (IE & _).
+  apply (IE senv genv (EMatchU e u arms def) t v t2 k W E).
+  cbn [eval]. rewrite He. cbn [rbind]. rewrite String.eqb_refl, Fa.
+  destruct bx as [x|]; [|exact Hb].
+  destruct payload as [pv|]; [exact Hb|]. exfalso. apply Hpay; [discriminate|reflexivity].
+Qed.
+
+(** operands, arguments and components are evaluated left to right: the emitted argument list produces the
+    trace of the source's left-to-right evaluation *)
+Lemma effects_in_source_order n senv genv es t vs t' k :
+  Forall wfe' es -> erel' senv genv ->
+  evals (p_funs p) n senv es t = Done vs t' ->
+  exists gvs, Gevals' genv (compile_list k es) t gvs t' /\ Forall2 vrel' vs gvs.
+Proof.
+  intros W E H. destruct (prog_sims n) as (_ & IEs & _).
+  destruct (IEs senv genv es t vs t' k W E H) as (gvs & Vs & G).
+  exists gvs; split; [|exact Vs].
+  specialize (G [] [] t' (Gs_nil _ _ _ _)). rewrite !app_nil_r in G. exact G.
+Qed.
+
+End Prog.
+
 (** ** the theorem *)
 Theorem compile_correct_partial : forall p n out,
   wt p -> pap_args_pure p ->
   run_src n p = ODone out -> exists m, run_go m (compile_prog p) = ODone out.
 Proof.
-  intros p n out _ (Nd & Wf & Wm) R.
-  unfold run_src in R.
-  destruct (eval_block (p_funs p) n [] (p_main p) []) as [v t| |] eqn:Ev; try discriminate.
-  inversion R; subst.
-  set (ok := ctor_declared (p_unions p)) in *.
-  set (gfuncs := g_funcs (compile_prog p)). set (gvars := g_vars (compile_prog p)).
-  assert (Hfuns : forall f ps b, lookup f (p_funs p) = Some (ps, b) ->
-            exists k, lookup f gfuncs = Some (ps, compile_block k b) /\
-                      Forall (fun x => reserved x = false) ps /\ wfb true ok b).
-  { intros f ps b L.
-    pose proof (lookup_in _ _ _ L) as I. rewrite Forall_forall in Wf.
-    destruct (Wf _ I) as (Rf & Rps & Wb). cbn in Rf, Rps, Wb.
-    destruct (compile_funs_lookup _ 0 _ _ _ L) as (k & Lk). exists k. repeat split; auto.
-    unfold gfuncs, compile_prog; cbn [g_funcs]. rewrite lookup_app.
-    rewrite lookup_notin; [exact Lk|].
-    intros I2. apply ctor_funcs_ctor_like in I2. destruct (reserved_false _ Rf). congruence. }
-  assert (Hc1 : forall u c, ok u c true -> lookup (ctor_name u c) gfuncs = Some (ctor_func_body u c)).
-  { intros u c (cases & Iu & Ic). unfold gfuncs, compile_prog; cbn [g_funcs]. rewrite lookup_app.
-    rewrite (all_unions_func _ _ _ _ Nd Iu Ic). reflexivity. }
-  assert (Hc0 : forall u c, ok u c false -> lookup (ctor_name u c) gfuncs = None /\
-            lookup (ctor_name u c) gvars = Some (GStructLit (case_struct u c) [])).
-  { intros u c (cases & Iu & Ic). destruct (all_unions_var _ _ _ _ Nd Iu Ic) as (L & NI). split; [|exact L].
-    unfold gfuncs, compile_prog; cbn [g_funcs]. rewrite lookup_app.
-    rewrite (lookup_notin _ _ NI). apply lookup_notin. rewrite compile_funs_names.
-    intros I. apply in_map_iff in I. destruct I as ([g d] & Eg & I). cbn in Eg; subst g.
-    rewrite Forall_forall in Wf. destruct (Wf _ I) as (Rf & _). cbn in Rf.
-    destruct (reserved_false _ Rf) as (_ & C). rewrite ctor_name_like in C. discriminate. }
-  destruct (sim_block ok (p_funs p) gfuncs gvars Hfuns Hc1 Hc0 n [] [] (p_main p) [] v t
-              (nvfuns (p_funs p)) Wm (erel_nil ok gfuncs) Ev) as (o & (m & Hm) & _).
-  exists (S m). unfold run_go. cbn [MiniGo.gapply bind].
-  change (g_funcs (compile_prog p)) with gfuncs. change (g_vars (compile_prog p)) with gvars.
-  change (g_main (compile_prog p)) with (compile_block (nvfuns (p_funs p)) (p_main p)).
-  rewrite (Hm m (le_n _)). reflexivity.
+  intros p n out _ Hp R. destruct (compile_correct_eventually p Hp n out R) as (m0 & H).
+  exists m0. apply H. apply le_n.
 Qed.
